@@ -128,7 +128,8 @@ def run(ck, facts, tier):
                     where = "%s:%d" % (facts.mir[fn_]["file"], ln)
                     key = "%s:%s#%d" % (fam, kind, n)
                     via = "" if cc.root_of(fn_) == root else " (in helper %s)" % fn_
-                    if n >= len(budget) and bounds.kind_class(kind) and (ln, bounds.kind_class(kind)) in safe_cache(fn_):
+                    if n >= len(budget) and bounds.kind_class(kind) and ((ln, bounds.kind_class(kind)) in safe_cache(fn_) or
+                                                                          (ln, bounds.kind_class(kind)) in safe_cache(cc.root_of(fn_))):
                         # no reviewed row, but safe by the shape of the counted loop it sits in (rules/bounds.py): `c[i + C]` inside `for i in A..c.len() + D`
                         ck.ok(r1, key, sample="discharged by the affine-index rule: index within the bounds of its counted loop")
                         continue
@@ -199,6 +200,10 @@ def loader_rule(ck, facts, P=None, only=None):
             continue
         c = P.cfgs[conv[0]]
         sites = cfgmod.panic_sites(c, P.cfgs)
+        from rules import bounds as _bounds
+        rec_c = facts.fn(conv[0])
+        safe_c = _bounds.safe_sites(rec_c) if rec_c is not None else set()
+        sites = [s_ for s_ in sites if not (_bounds.kind_class(s_["kind"]) and (s_["ln"], _bounds.kind_class(s_["kind"])) in safe_c)]      # safe by shape (rules/bounds.py)
         callees = {c.callee_name(t) for _, t in c.calls()}
         has_err = any(s.get("adt", "").endswith("Result") and s.get("variant") == "Err" for b in c.blocks for s in b["stmts"])
         validates = (ctor and any(re.search(ctor, x or "") for x in callees)) or (ctor is None and has_err)
